@@ -47,6 +47,12 @@ func (e *Eval) resolve(typ string, src interface{}, n *qgen.Node) (interface{}, 
 				l = append(l, uservalue{u})
 			}
 			return l, nil
+		case "usersN":
+			l := listvalue{uservalue{nil}}
+			for _, u := range d.Users {
+				l = append(l, uservalue{u}, uservalue{nil})
+			}
+			return l, nil
 		case "user":
 			return uservalue{d.UserByID(toInt(n.Args["id"]))}, nil
 		case "items", "itemsV":
